@@ -19,6 +19,9 @@ Fixpoint expressed_from (now : time) (n : nat) (es : list sev) : list sint :=
   | SExpress nm cbp dig life :: r =>
       if is_nil nm && is_none dig then expressed_from now n r
       else mkSint n nm cbp dig (now + lifetime life)%N :: expressed_from now (S n) r
+  | SExpressFail nm cbp dig life :: r =>      (* Express returned an error: recorded with s_opt = true *)
+      if is_nil nm && is_none dig then expressed_from now n r
+      else mkSintO n nm cbp dig (now + lifetime life)%N true :: expressed_from now (S n) r
   | _ :: r => expressed_from now n r
   end.
 Definition expressed (es : list sev) : list sint := expressed_from 0%N 0 es.
@@ -37,7 +40,8 @@ Proof.
   induction a as [|e a IH]; intros b now n; simpl.
   - rewrite Nat.add_0_r. reflexivity.
   - destruct e; try apply IH.
-    destruct (is_nil nm && is_none dig); [apply IH|]. simpl. rewrite IH. f_equal. f_equal. f_equal. lia.
+    + destruct (is_nil nm && is_none dig); [apply IH|]. simpl. rewrite IH. f_equal. f_equal. f_equal. lia.
+    + destruct (is_nil nm && is_none dig); [apply IH|]. simpl. rewrite IH. f_equal. f_equal. f_equal. lia.
 Qed.
 
 Lemma clock_from_app : forall a b now, clock_from now (a ++ b) = clock_from (clock_from now a) b.
@@ -104,6 +108,8 @@ Definition new_of (sp : sstate) (e : sev) : list sint :=
   match e with
   | SExpress nm cbp dig life =>
       if is_nil nm && is_none dig then [] else [mkSint (sp_npid sp) nm cbp dig (sp_now sp + lifetime life)%N]
+  | SExpressFail nm cbp dig life =>
+      if is_nil nm && is_none dig then [] else [mkSintO (sp_npid sp) nm cbp dig (sp_now sp + lifetime life)%N true]
   | _ => []
   end.
 
@@ -165,6 +171,22 @@ Proof.
       * rewrite map_app. simpl. apply NoDup_app_snoc; [exact B5|]. intros Hi. apply in_map_iff in Hi.
         destruct Hi as (i & Hpi & Hi). apply B4 in Hi. lia.
       * intros p Hp. destruct (B6 p Hp) as (i & Hi & Hpi). exists i. rewrite in_app_iff. tauto.
+  - (* SExpressFail *)
+    destruct (obs_is o (ORet 1%N)) eqn:Eo; [|discriminate]. destruct (is_nil nm && is_none dig) eqn:Hne.
+    + inversion H. subst. rewrite (obs_is_nocb _ _ Eo), !app_nil_r. exact B.
+    + inversion H. subst.
+      rewrite (obs_is_nocb _ _ Eo), app_nil_r. destruct B as [B1 B2 B3 B4 B5 B6]. constructor; simpl.
+      * exact B1.
+      * rewrite map_app. simpl. apply NoDup_app_snoc; [exact B2|]. intros Hi. apply in_map_iff in Hi.
+        destruct Hi as (i & Hpi & Hi). apply B3 in Hi. destruct Hi as (Hi & _). apply B4 in Hi. lia.
+      * intros i. rewrite !in_app_iff, B3. simpl. split.
+        -- intros [(A & C)|[<-|[]]]; [tauto|]. split; [tauto|]. simpl. intros Hs. destruct (B6 _ Hs) as (i' & Hi' & Hp').
+           apply B4 in Hi'. lia.
+        -- tauto.
+      * intros i Hi. apply in_app_iff in Hi. destruct Hi as [Hi|[<-|[]]]; [apply B4 in Hi; lia|simpl; lia].
+      * rewrite map_app. simpl. apply NoDup_app_snoc; [exact B5|]. intros Hi. apply in_map_iff in Hi.
+        destruct Hi as (i & Hpi & Hi). apply B4 in Hi. lia.
+      * intros p Hp. destruct (B6 p Hp) as (i & Hi & Hpi). exists i. rewrite in_app_iff. tauto.
   - (* SData *)
     destruct (check_data_cbs (sp_pending sp) dn dd o) as [rest|] eqn:Ec; [|discriminate].
     destruct (find _ rest); [discriminate|]. inversion H. subst. eapply binv_cbs; eauto.
@@ -211,6 +233,7 @@ Proof.
   - destruct (is_nil nm && is_none dig).
     + destruct (obs_is o _); [|discriminate]. inversion H. subst. simpl. split; [reflexivity|lia].
     + destruct (obs_is o _); [|discriminate]. inversion H. subst. simpl. split; [reflexivity|lia].
+  - destruct (obs_is o _); [|discriminate]. destruct (is_nil nm && is_none dig); inversion H; subst; simpl; split; try reflexivity; lia.
   - destruct (check_data_cbs _ _ _ _); [|discriminate]. destruct (find _ _); [discriminate|]. inversion H. subst. simpl. split; [reflexivity|lia].
   - destruct (check_nack_cbs _ _ _ _ _); [|discriminate]. inversion H. subst. simpl. split; [reflexivity|lia].
   - destruct (check_timeout_cbs _ _ _); [|discriminate]. inversion H. subst. simpl. split; [reflexivity|lia].
@@ -236,7 +259,8 @@ Proof.
     assert (Hx : expressed_from (sp_now sp) (sp_npid sp) (e :: map fst h) =
                  new_of sp e ++ expressed_from (sp_now sp1) (sp_npid sp1) (map fst h)).
     { rewrite Hc, Hn. destruct e; simpl; rewrite ?Nat.add_0_r; try reflexivity.
-      destruct (is_nil nm && is_none dig); simpl; rewrite ?Nat.add_0_r; [reflexivity|]. f_equal. f_equal. lia. }
+      - destruct (is_nil nm && is_none dig); simpl; rewrite ?Nat.add_0_r; [reflexivity|]. f_equal. f_equal. lia.
+      - destruct (is_nil nm && is_none dig); simpl; rewrite ?Nat.add_0_r; [reflexivity|]. f_equal. f_equal. lia. }
     simpl in Hx. rewrite Hx. rewrite <- !app_assoc in B2. split; [exact B2|].
     rewrite Hc2, Hc. destruct e; reflexivity.
 Qed.
@@ -263,6 +287,16 @@ Section Accepted.
   Proof.
     intros Hp i Hi. destruct (in_dec Nat.eq_dec (s_pid i) (hist_cbs h)) as [Y|N]; [exact Y|].
     exfalso. assert (In i (sp_pending sp)) by (apply (b_pend _ _ _ acc_binv); auto). rewrite Hp in H. contradiction.
+  Qed.
+
+  (* what the end-of-history check of the oracle means: every Interest whose Express did not fail was called back *)
+  Lemma acc_final_resolved : spec_final sp = None -> forall i, In i (expressed (map fst h)) -> s_opt i = false ->
+    In (s_pid i) (hist_cbs h).
+  Proof.
+    intros Hf i Hi Ho. destruct (in_dec Nat.eq_dec (s_pid i) (hist_cbs h)) as [Y|N]; [exact Y|].
+    exfalso. assert (Hp : In i (sp_pending sp)) by (apply (b_pend _ _ _ acc_binv); auto).
+    unfold spec_final in Hf. destruct (find (fun i0 => negb (s_opt i0)) (sp_pending sp)) eqn:E; [discriminate|].
+    pose proof (find_none _ _ E i Hp) as Hn. simpl in Hn. rewrite Ho in Hn. discriminate.
   Qed.
 End Accepted.
 
@@ -312,6 +346,7 @@ Proof.
   destruct e.
   - destruct o; [contradiction|discriminate].
   - exfalso. apply Hcb. destruct (is_nil nm && is_none dig); destruct (obs_is o _) eqn:Eo; try discriminate; eapply obs_is_nocb; eauto.
+  - exfalso. apply Hcb. destruct (obs_is o _) eqn:Eo; [|discriminate]. eapply obs_is_nocb; eauto.
   - destruct (check_data_cbs (sp_pending spk) dn dd o) as [rest|] eqn:Ec; [|discriminate].
     destruct (Gen _ _ _ Ec) as (i & A & C & D & E). exists i. split; [exact A|]. split; [exact C|]. split; [exact D|].
     unfold data_ok in E. destruct r; try discriminate. apply andb_true_iff in E. destruct E as (E1 & E3).
